@@ -173,7 +173,8 @@ func (c *SubscriptionManager) RemoveSubscriptionsForEntity(remoteEntity api.Enti
 
 	var newSubscriptionEntries []*api.SubscriptionEntry
 	for _, item := range c.subscriptionEntries {
-		if !reflect.DeepEqual(item.ClientFeature.Address().Device, remoteEntity.Address().Device) ||
+		// the device address is unknown until the detailed discovery arrived, the connection (SKI) is always known
+		if item.ClientFeature.Device().Ski() != remoteEntity.Device().Ski() ||
 			!reflect.DeepEqual(item.ClientFeature.Address().Entity, remoteEntity.Address().Entity) {
 			newSubscriptionEntries = append(newSubscriptionEntries, item)
 			continue
